@@ -265,6 +265,20 @@ static void on_alt(void)
         binson_parser_field_ensure(p, "a", BINSON_TYPE_ARRAY);
         for (int i = 0; i < a->ad; i++) { binson_parser_go_into_array(p); binson_parser_next(p); }
         (void)binson_parser_get_string_bbuf(p); binson_parser_next(p); (void)binson_parser_get_bytes_bbuf(p); binson_parser_next(p); (void)binson_parser_get_integer(p);
+        if (a->slen <= 1) {
+            /* verify (and the text functions) called mid-parse at the deepest point, then the descent is repeated */
+            binson_parser_verify(p);
+            binson_parser_go_into_object(p);
+            for (int i = 1; i < a->od; i++) { binson_parser_next(p); binson_parser_go_into_object(p); }
+            binson_parser_next(p);
+            for (int i = 0; i < a->ad; i++) { binson_parser_go_into_array(p); binson_parser_next(p); }
+            binson_parser_verify(p);
+            binson_parser_go_into_object(p);
+            for (int i = 1; i < a->od; i++) { binson_parser_next(p); binson_parser_go_into_object(p); }
+            binson_parser_next(p);
+            for (int i = 0; i < a->ad; i++) { binson_parser_go_into_array(p); binson_parser_next(p); }
+            binson_parser_next(p); binson_parser_next(p);
+        }
         for (int i = 0; i < a->ad; i++) binson_parser_leave_array(p);
         binson_parser_next(p);
         for (int i = 0; i < a->od; i++) binson_parser_leave_object(p);
@@ -274,7 +288,12 @@ static void on_alt(void)
         binson_write_integer(&w, -5); binson_write_string_with_len(&w, (const char *)a->doc->p, a->doc->n > 1000 ? 1000 : a->doc->n); binson_write_double(&w, 2.5);
     }
 #ifdef BINSON_PARSER_WITH_PRINT
-    else { size_t sz = sizeof stext; binson_parser_to_string(p, stext, &sz, false); binson_parser_print(p); }
+    else {
+        /* the text functions are called mid-parse too: first descend to the deepest point */
+        binson_parser_go_into_object(p);
+        for (int i = 1; i < a->od && !a->wide; i++) { binson_parser_next(p); binson_parser_go_into_object(p); }
+        size_t sz = sizeof stext; binson_parser_to_string(p, stext, &sz, false); binson_parser_print(p);
+    }
 #endif
     swapcontext(&ctx_alt, &ctx_main);
 }
